@@ -4,7 +4,7 @@ from __future__ import annotations
 
 import ast
 
-from sa.cfg import dominators, reachable, reaches, specialize
+from sa.cfg import dominators, reachable, reaches, specialize, test_atoms
 from sa.db import AnalysisError, FuncInfo, bind_args, dotted, src, walk_local
 from sa.flow import backward_slice, defs_reaching, reaching_defs
 from sa.model import contains, enclosing, execute_impl_funcs, is_user_func_call, superstep_funcs
@@ -224,6 +224,32 @@ def run(ctx) -> None:
     ok = only_false(live_end) and only_false(live_none)
     rep.add("C03.R4", f"{act.qname}:END-None-activate-nothing", ok, act.loc(), "END and None decisions activate no node (decided before any membership test)" if ok else "an END or None decision can activate a node")
 
+    # a decision that is a single target name (str) is compared by equality: no membership test
+    # (substring for str) is reachable unless the decision is known to be a collection
+    pn, pd = (act.param_names + ["", ""])[:2]
+    val = {f"{pd} is END": False, f"{pd} is None": False}
+    for t in acfg.nodes:
+        if t.kind == "test" and t.ast is not None:
+            for a in test_atoms(t.ast):
+                if isinstance(a, ast.Call) and dotted(a.func) == "isinstance" and a.args and isinstance(a.args[0], ast.Name) and a.args[0].id == pd:
+                    val[src(a)] = False
+    live_name = reachable(acfg.entry, specialize(val, acfg))
+    bad = []
+    for n in live_name:
+        for e in acfg.header_exprs(n):
+            for x in ast.walk(e):
+                if isinstance(x, ast.Compare) and any(isinstance(o, (ast.In, ast.NotIn)) for o in x.ops) and any(isinstance(c, ast.Name) and c.id == pd for c in x.comparators):
+                    bad.append(x)
+    rets_ = [n for n in live_name if n.kind == "stmt" and isinstance(n.ast, ast.Return)]
+
+    def eq_or_false(v: ast.AST | None) -> bool:
+        if isinstance(v, ast.Constant) and v.value is False:
+            return True
+        return isinstance(v, ast.Compare) and len(v.ops) == 1 and isinstance(v.ops[0], ast.Eq) and {src(v.left), src(v.comparators[0])} == {pn, pd}
+
+    ok = bool(pn and pd) and not bad and bool(rets_) and all(eq_or_false(r.ast.value) for r in rets_)
+    rep.add("C03.R4", f"{act.qname}:name-decision-by-equality", ok, f"{act.module.rel}:{(bad[0].lineno if bad else act.node.lineno)}", "a single-name decision activates exactly the node of that name (membership tests are reachable only for collection decisions)" if ok else "a single-name decision is tested by membership/other than equality: for a str that is substring containment, so a node whose name is contained in the chosen target's name is activated too")
+
     # ---- R5 ---------------------------------------------------------------------
     sss = set(superstep_funcs(db))
     for impl in execute_impl_funcs(db):
@@ -334,5 +360,8 @@ VARIANTS = [
     Variant("end-activates", HP, replace_once("    if decision is END:\n        return False\n    if decision is None:\n        return False\n", "    if decision is None:\n        return False\n"), {"C03.R4"}),
     Variant("runner-ready-list-unfiltered", SR, replace_once("                    ready_nodes,\n                    values,\n                    self._make_execute_node(event_processors),", "                    [n for n in graph._nodes.values() if n.name not in state.node_executions] or ready_nodes,\n                    values,\n                    self._make_execute_node(event_processors),"), {"C03.R5"}),
     Variant("early-start-without-exec-check", HP, replace_once("                    if gate_name not in state.node_executions:\n                        gate = graph._nodes.get(gate_name)\n                        if gate is None:\n                            continue\n                        default_open = getattr(gate, \"default_open\", True)\n                        if default_open:\n                            # Gate has never executed — default to open (configurable)\n                            activated.add(node_name)\n                            break\n                        continue\n                    continue  # Gate executed before but decision was cleared (stale)", "                    gate = graph._nodes.get(gate_name)\n                    if gate is None:\n                        continue\n                    default_open = getattr(gate, \"default_open\", True)\n                    if default_open:\n                        activated.add(node_name)\n                        break\n                    continue"), {"C03.R6"}),
+    Variant("name-decision-substring", HP, replace_once("    if isinstance(decision, list):\n        return node_name in decision\n    return decision == node_name", "    return node_name in decision"), {"C03.R4"}),
+    Variant("name-decision-startswith", HP, replace_once("    return decision == node_name", "    return decision.startswith(node_name)"), {"C03.R4"}),
+    Variant("twin-decision-list-or-tuple", HP, replace_once("    if isinstance(decision, list):\n        return node_name in decision\n    return decision == node_name", "    if isinstance(decision, (list, tuple)):\n        return node_name in decision\n    return node_name == decision"), set()),
     Variant("twin-activation-extract-helper", HP, replace_once("                if _is_node_activated_by_decision(node_name, decision):\n                    activated.add(node_name)\n                    break\n\n    return activated", "                hit = _is_node_activated_by_decision(node_name, decision)\n                if hit:\n                    activated.add(node_name)\n                    break\n\n    return activated"), set()),
 ]
